@@ -375,7 +375,7 @@ def judge(driver, tier, seed, merged, wall):
 
     cov = {
         'evaluations': int(merged['evaluations']),
-        'distinct_nontrivial': len(merged['distinct']),
+        'distinct_nontrivial': int(merged.get('distinct_count', len(merged['distinct']))),
         'rule': driver.RULE,
         'samples': merged['samples'] or ['(none)'],
         'classes_seen': len(merged['classes']),
